@@ -360,6 +360,10 @@ def short_id(fid):
     return fid.split("::", 1)[1] if "::" in fid else fid
 
 
+# message enums nested inside an execute variant and dispatched by a second `match` (types of the external std crate)
+NESTED_DISPATCH_ADTS = {"mantra_dex_std::farm_manager::FarmAction", "mantra_dex_std::farm_manager::PositionAction"}
+
+
 class World:
     """Fact base + entry-point knowledge for the four contracts."""
 
@@ -384,49 +388,73 @@ class World:
         mp = self.msg_param(b)
         tree = {}
         adts = {}
-        # locals that are moves of (parts of) msg: follow simple copies  _x = move (msg as V).f
-        alias = {mp: ()}
-        changed = True
-        while changed:
-            changed = False
+        seen = set()
+
+        def scan(b, alias, depth):
+            """collect discriminant reads on (parts of) msg in body b; `alias` maps locals to paths below msg.  Dispatch that is
+            delegated to a helper (`ExecuteMsg::ManageFarm { action } => manage_farm(deps, env, info, action)`) is followed."""
+            if (b.id, tuple(sorted(alias.items()))) in seen or depth > 3:
+                return
+            seen.add((b.id, tuple(sorted(alias.items()))))
+            alias = dict(alias)
+            changed = True
+            while changed:
+                changed = False
+                for blk in b.blocks:
+                    for s in blk["stmts"]:
+                        if s["k"] != "assign" or s["rv"]["k"] != "use":
+                            continue
+                        op = s["rv"]["op"]
+                        if op["k"] not in ("copy", "move"):
+                            continue
+                        src = mkplace(op["place"])
+                        dst = mkplace(s["lhs"])
+                        if dst[1] or src[0] not in alias or dst[0] in alias:
+                            continue
+                        alias[dst[0]] = alias[src[0]] + tuple(x for x in src[1])
+                        changed = True
             for blk in b.blocks:
                 for s in blk["stmts"]:
-                    if s["k"] != "assign" or s["rv"]["k"] != "use":
+                    if s["k"] == "assign" and s["rv"]["k"] == "discr":
+                        pl = mkplace(s["rv"]["place"])
+                        if pl[0] not in alias:
+                            continue
+                        full = alias[pl[0]] + tuple(pl[1])
+                        if depth > 0 and s["rv"].get("adt", "") not in NESTED_DISPATCH_ADTS:
+                            continue      # inside helpers only the nested action enums are dispatch; Options etc. are ordinary data
+                        node = tree
+                        ok = True
+                        path = []
+                        for tok in full:
+                            if tok[0] == "dc":
+                                node = node.setdefault(tok[1], {})
+                                path.append(tok[1])
+                            elif tok[0] == "f":
+                                node = node.setdefault("." + tok[1], {})
+                                path.append("." + tok[1])
+                            elif tok[0] == "d" and depth > 0:
+                                continue
+                            else:
+                                ok = False
+                        if not ok:
+                            continue
+                        adts[tuple(path)] = s["rv"].get("adt", "")
+                        for _, vn in s["rv"].get("variants", []):
+                            node.setdefault(vn, {})
+                t = blk["term"]
+                if t.get("k") == "call":
+                    cb = self.F.get(t.get("resolved_id") or t.get("callee_id") or "")
+                    if cb is None or cb.crate != b.crate or cb.kind != "fn":
                         continue
-                    op = s["rv"]["op"]
-                    if op["k"] not in ("copy", "move"):
-                        continue
-                    src = mkplace(op["place"])
-                    dst = mkplace(s["lhs"])
-                    if dst[1] or src[0] not in alias or dst[0] in alias:
-                        continue
-                    path = alias[src[0]] + tuple(x for x in src[1])
-                    alias[dst[0]] = path
-                    changed = True
-        for blk in b.blocks:
-            for s in blk["stmts"]:
-                if s["k"] == "assign" and s["rv"]["k"] == "discr":
-                    pl = mkplace(s["rv"]["place"])
-                    if pl[0] not in alias:
-                        continue
-                    full = alias[pl[0]] + tuple(pl[1])
-                    node = tree
-                    ok = True
-                    path = []
-                    for tok in full:
-                        if tok[0] == "dc":
-                            node = node.setdefault(tok[1], {})
-                            path.append(tok[1])
-                        elif tok[0] == "f":
-                            node = node.setdefault("." + tok[1], {})
-                            path.append("." + tok[1])
-                        else:
-                            ok = False
-                    if not ok:
-                        continue
-                    adts[tuple(path)] = s["rv"].get("adt", "")
-                    for _, vn in s["rv"].get("variants", []):
-                        node.setdefault(vn, {})
+                    sub = {}
+                    for i, a in enumerate(t.get("args", [])):
+                        if a.get("k") in ("copy", "move"):
+                            src = mkplace(a["place"])
+                            if src[0] in alias:
+                                sub[i + 1] = alias[src[0]] + tuple(x for x in src[1])
+                    if sub:
+                        scan(cb, sub, depth + 1)
+        scan(b, {mp: ()}, 0)
         return tree, adts
 
     def variant_paths(self, contract, which="execute"):
